@@ -237,6 +237,12 @@ Definition mds_empty (t : ity) (e : extents) : bool := mds_size t e =? 0.
 (* mdarray(extents): container_type(static_cast<size_t>(required_span_size())) *)
 Definition mda_container_size (l : layout) (t : ity) (e : extents) : Z := szw (lay_required l t e).
 
+(* an mdarray over a layout_stride mapping: EVERY constructor that creates the container itself -- mdarray(mapping),
+   mdarray(mapping, value) (and the extents forms, which delegate to them) -- sizes it with
+   static_cast<size_t>(_map.required_span_size()); the (mapping, container) forms keep the caller's container *)
+Definition mda_strided_container_size (t : ity) (m : strided) : option Z :=
+  do rq <- strided_required t m; Some (szw rq).
+
 (** * submdspan_extents(ext, slices...)  with slices = full_extent (None) or an index (Some k) *)
 Fixpoint sub_keep {A} (sl : list (option Z)) (l : list A) : list A :=
   match sl, l with
